@@ -556,7 +556,67 @@ def cmp_dpn(impl, mo):
     return cmp_answer(impl['est'], m['est'])
 
 
-KINDS = {'est': (case_est, cmp_est), 'comp': (case_comp, cmp_comp), 'ptim': (case_ptim, cmp_ptim),
+def case_gin(EoN, nx, sim, case):
+    """get_infected_nodes with explicit initial sets under scripted expovariate"""
+    G, labels, idx = build(nx, case)
+    n = len(labels)
+    tau, gamma = F(case['tau']), F(case['gamma']); draws = [F(d) for d in case['draws']]
+    def arg(spec):
+        if spec is None: return None
+        one, ids = spec
+        if one: return labels[ids[0]] if ids[0] < n else ids[0]
+        return [labels[i] for i in ids]
+    inf, rec = case['inf'], case['rec']
+    old = sim.random
+    try:
+        s1 = Script(draws); sim.random = s1
+        r = call_impl(EoN.get_infected_nodes, G, float(tau), float(gamma), initial_infecteds=arg(inf), initial_recovereds=arg(rec))
+    finally:
+        sim.random = old
+    impl = {'res': ('OK', sorted(idx[x] for x in r[1])) if r[0] == 'OK' else r, 'log': s1.log}
+    tok = lambda spec: '0 0' if spec is None else '%d %d %s' % (1 if spec[0] else 0, len(spec[1]), ' '.join(str(i) for i in spec[1]))
+    line = 'GIN %s %s %s %s %s %d %s' % (graph_tokens(G, idx), C.qtok(tau), C.qtok(gamma), tok(inf), tok(rec), len(draws), ' '.join(C.qtok(d) for d in draws))
+    # oracle: the nodes reachable from the initial infecteds in the percolated network minus the recovered nodes
+    bad = None
+    I0 = set(inf[1]); R0 = set(rec[1]) if rec else set()
+    valid = all(i < n for i in I0 | R0)
+    if valid and I0 & R0:
+        if r != ('ERR', 'EoNError'):
+            bad = ('get_infected_nodes', 'overlapping initial sets: %r instead of EoNError' % (r,))
+    elif valid:
+        it = iter(draws); fired = []; ok = True
+        try:
+            for u in G.nodes():
+                du = float(next(it)) if gamma > 0 else INF
+                for v in G.neighbors(u):
+                    d = float(next(it)) if tau > 0 else INF
+                    if d <= du: fired.append((idx[u], idx[v]))
+        except StopIteration:
+            ok = False
+        if ok:
+            rm = reach_matrix(n, [(a, b) for a, b in fired if a not in R0 and b not in R0])
+            exp = sorted(v for v in range(n) if any(rm[s0][v] for s0 in I0))
+            if impl['res'] != ('OK', exp):
+                bad = ('get_infected_nodes', 'returned %r; reachable from %r in the percolated network %r without the recovered nodes %r: %r' % (impl['res'][1], sorted(I0), fired, sorted(R0), exp))
+    return line, impl, bad
+
+
+def cmp_gin(impl, mo):
+    body, _, trace = mo.partition(' | TRACE')
+    tk = body.split()
+    if tk[0] == 'ERR':
+        want = 'EOFError' if tk[1] == 'OutOfDraws' else ('NetworkXError' if tk[1] == 'Exception' else tk[1])
+        if impl['res'] != ('ERR', want): return 'model raises %s, implementation %r' % (tk[1], impl['res'])
+    else:
+        m = ('OK', [int(x) for x in tk[1].split(',') if x] if len(tk) > 1 else [])
+        if m != impl['res']: return 'model %r, implementation %r' % (m, impl['res'])
+    mt = ['E:%s' % F(t.split(':')[1]) for t in trace.split()]
+    if mt != impl['log']:
+        return 'calls to random.expovariate: model %r, implementation %r' % (mt[:10], impl['log'][:10])
+    return None
+
+
+KINDS = {'gin': (case_gin, cmp_gin), 'est': (case_est, cmp_est), 'comp': (case_comp, cmp_comp), 'ptim': (case_ptim, cmp_ptim),
          'pnm': (case_pnm, cmp_pnm), 'perc': (case_perc, cmp_perc), 'dpn': (case_dpn, cmp_dpn)}
 
 
@@ -672,6 +732,16 @@ def gen_cases(rng, tier):
         nd = n2 + len(opairs)
         cases.append(dict(gb, kind='dpn', tau=str(tau), gamma=str(gamma), weights=rng.random() < 0.5,
                           draws=[str(F(rng.choice([1, 1, 2, 3, 4, 6, 8]), rng.choice([1, 2, 4]))) for _ in range(nd)]))
+        if n2:
+            k1 = rng.randint(1, max(1, n2 // 2))
+            i0 = rng.sample(range(n2), k1)
+            rest = [x for x in range(n2) if x not in i0]
+            r0 = rng.sample(rest, rng.randint(0, len(rest) // 2)) if rest else []
+            if rng.random() < 0.06: r0 = r0 + [i0[0]]                          # overlapping sets: EoNError
+            inf = (True, [i0[0]]) if rng.random() < 0.3 else (False, i0)
+            rec = None if (not r0 and rng.random() < 0.5) else ((True, [r0[0]]) if (len(r0) == 1 and rng.random() < 0.5) else (False, r0))
+            cases.append(dict(gb, kind='gin', tau=str(rng.choice([F(1), F(2), F(1, 2)])), gamma=str(rng.choice([F(0), F(1), F(1), F(3)])), inf=inf, rec=rec,
+                              draws=[str(F(rng.choice([1, 1, 2, 3, 4, 6, 8]), rng.choice([1, 2, 4]))) for _ in range(nd)]))
     return cases, n_exh
 
 
@@ -726,7 +796,7 @@ def run(run, tier):
             if len(samples) < 3 and c['src'] == 'random' and len(c['arcs']) > 3:
                 samples.append({'digraph': {'n': len(c['perm']), 'labels': c['scheme'], 'arcs': c['arcs']}, 'implementation': repr(impl['est']), 'allowed': sorted((str(a), str(b)) for a, b in pa[1]) if pa[0] == 'OK' else pa[1]})
     stats['est_cases_with_several_answers'] = ties
-    ENTRY = {'est': 'estimate_SIR_prob_size_from_dir_perc', 'comp': '_out_component_', 'ptim': 'nonMarkov_directed_percolate_network_with_timing',
+    ENTRY = {'gin': 'get_infected_nodes', 'est': 'estimate_SIR_prob_size_from_dir_perc', 'comp': '_out_component_', 'ptim': 'nonMarkov_directed_percolate_network_with_timing',
              'pnm': 'nonMarkov_directed_percolate_network', 'perc': 'estimate_SIR_prob_size', 'dpn': 'directed_percolate_network'}
     for ep, (size, what, c) in spec_bad.items():
         run.violation('C17/%s/spec' % ep, '%s does not compute what it documents: %s' % (ep, what[:600]), {'case': jsonable(c), 'what': what})
